@@ -56,6 +56,9 @@ CHECKS = {
     "C09": dict(level=MC, design="5/C09 + notes/sig.md", technique="TLA+ spec (MultiSig: BLS, TBLS partial lists, BDN/CoSi mask objects) model-checked with TLC; behaviours replayed on the 8 (suite, signature group) combinations; mask op traces recorded from real masks validated by MaskTrace",
                 text="TLC enumerates partial-signature lists (valid/invalid/duplicate/garbage/wrong-message/short, any order, 2<=t<=n<=5), mask programs (constructor variants, SetBit, SetMask, Merge, Clone) and CoSi policies with the verdicts Recover ok iff >= t distinct valid indices, aggregate verifies iff mask and message match; the replayer runs them on real bls/tbls/bdn/cosi objects (two combinations exhaustively per seed, the rest sampled), compares recovered signatures byte-for-byte with signing under the group secret; recorded mask traces are validated by TLC.",
                 note="trusted: TLC, pairing suites for verification; n<=8 by simulation; TBLS n=5 replayed with <=1 junk/duplicate"),
+    "C11": dict(level=MC, design="5/C11 + notes/dkg.md", technique="TLA+ specs DKGPedersen (API level, fresh + resharing, regular + fast-sync, full fault menus), DKGProtocol (per-node delivery, set.Push, ticks, early transitions) and DKGRabin model-checked with TLC; behaviours replayed on real DistKeyGenerator / Protocol / rabin objects with hand-built faulty bundles; hook traces (repo tests and replays) validated by DKGPedersenTrace",
+                text="TLC exhausts fresh DKG for n=3,4 (all t, <= n-t faulty parties with the property's fault menu, regular and fast-sync, delivery orders), six resharing shapes, the Protocol driver for n=3 with per-node orders/duplicates/equivocation, and Rabin n=3,4 with one faulty party, checking Agreement, SharesOnPoly, KeyIsSumOfQual/KeyUnchanged, UnjustifiedDealerOut, HonestDealerStays, AllHonestAllFinish; each behaviour is replayed on real objects (malicious parties are the harness signing hand-built bundles), comparing emitted responses/justifications and error classes per phase and deciding the requirement observables with real crypto; n=5..9 by simulation.",
+                note="trusted: TLC, packet-signature unforgeability (no impersonation in the menus), synchronous rounds as in the code; six root-cause classes of genuine protocol-level defects are recorded as known findings (fast-sync + equivocation + late conflict; three Rabin DKG classes)"),
 }
 
 NOT_YET = {
